@@ -762,10 +762,10 @@ def bound_samesrc(repo, res):
         res.fail(key, "the weight does not multiply the integrand factor", ig.line(f.node))
     key = f"{f.key}:A-shape"
     res.ob(key)
-    ma = _find(src, r"(?P<sh>\w+) = self\.ir\.expression\.tensor_shape\b", "A shape")
-    mm = _find(src, r"(?P<mi>\w+) = L\.MultiIndex\(list\((?P<ind>\w+)\), (?P<sh>\w+)\)", "A multi-index")
-    if ma.group("sh") != mm.group("sh"):
-        res.fail(key, "A is not flattened with ir.expression.tensor_shape", ig.line(f.node))
+    mm = _find(src, r"(?P<mi>\w+) = L\.MultiIndex\(list\((?P<ind>\w+)\), (?P<sh>[\w.]+)\)", "A multi-index")
+    shdef = re.findall(rf"\b{re.escape(mm.group('sh'))} = ([^\n]+)\n", src) if re.fullmatch(r"\w+", mm.group("sh")) else [mm.group("sh")]
+    if shdef != ["self.ir.expression.tensor_shape"]:
+        res.fail(key, f"A is flattened with `{shdef}` instead of ir.expression.tensor_shape (the extents the caller allocates)", ig.line(f.node))
     if not re.search(rf"AssignAdd\(\w+\[{mm.group('mi')}\], \w+\)", src):
         res.fail(key, "the accumulated entry is not A[multi_index]", ig.line(f.node))
     key = f"{f.key}:A-index"
@@ -804,7 +804,7 @@ def bound_samesrc(repo, res):
     hs = ast.unparse(h.node)
     mr = _find(hs, r"(?P<r>\w+) = \[(?P<x>\w+) for (?P<idx>\w+) in (?P<p>\w+) for (?P<x2>\w+) in (?P<idx2>\w+)\.sizes\]", "ranges of nested loops")
     mi2 = _find(hs, r"(?P<ind>\w+) = \[(?P<idx>\w+)\.local_index\((?P<i>\w+)\) for (?P<idx2>\w+) in (?P<p>\w+) for (?P<i2>\w+) in range\(len\((?P<idx3>\w+)\.sizes\)\)\]", "indices of nested loops")
-    mf = _find(hs, r"ForRange\((?P<ind>\w+)\[(?P<i>\w+)\], (?P<b>\w+), (?P<r>\w+)\[(?P<i2>\w+)\], body=\[\w+\]\)", "loop construction")
+    mf = _find(hs, r"ForRange\((?P<ind>\w+)\[(?P<i>[^\]]+)\], (?P<b>[^,]+), (?P<r>\w+)\[(?P<i2>[^\]]+)\], body=\[\w+\]\)", "loop construction")
     if not (mr.group("x") == mr.group("x2") and mr.group("idx") == mr.group("idx2") and mi2.group("idx") == mi2.group("idx2") == mi2.group("idx3")
             and mi2.group("i") == mi2.group("i2") and mf.group("i") == mf.group("i2") and mf.group("r") == mr.group("r") and mf.group("b") == "0"
             and mf.group("ind") in (mi2.group("ind"),) and mr.group("p") == h.params[0]):
